@@ -119,7 +119,7 @@ package shell_operator
 //@   requires taskHook.HookController != nil && t != nil && taskHook.Config != nil && (taskHook.Config.Version == "v0" || taskHook.Config.Version == "v1")
 //@   requires [ghost-wf] hook.nProcess >= 0 && !hook.fsExists[""]
 //@   modifies bindingcontext.lastConvIn, bindingcontext.lastConvVersion, bindingcontext.lastConvOut, controller.lastRefreshIn, controller.lastRefreshOut, controller.snapCount, controller.snapOf, hook.fsExists, hook.ctxFileContent, hook.nProcess, hook.lastExitErr, hook.nOutputsRead, hook.lastEnviron
-//@   modifies hook.nRun, hook.ranContexts, ranErr, hook.lastWaitHook, hook.lastHookResult, hook.lastHookErr, nSetAdm, lastAdmProp, nSend, lastSendErr, objectpatch.nPatchExec, objectpatch.nExec, objectpatch.execOp, objectpatch.execErr, objectpatch.lastSpecs, objectpatch.lastDecodeErr, objectpatch.nDocs, objectpatch.docLog, objectpatch.lastDecErr
+//@   modifies hook.nRun, hook.ranContexts, ranErr, hook.lastWaitHook, hook.lastHookResult, hook.lastHookErr, nSetAdm, lastAdmProp, nSend, lastSendErr, objectpatch.nPatchExec, objectpatch.nExec, objectpatch.execOp, objectpatch.execErr, objectpatch.lastSpecs, objectpatch.lastDecodeErr
 //@   ghostset ranErr := result
 //@   ensures [runs-once]                hook.nRun == old(hook.nRun) + 1 && hook.ranContexts == hookMeta.BindingContext
 //@   ensures [hook-error-fails]         hook.lastHookErr != nil ==> result != nil
@@ -419,7 +419,7 @@ package shell_operator
 //@ func (*ShellOperator).taskHandleHookRun
 //@   prop C04, C18, C14, C06, C01
 //@   requires op.HookManager != nil && op.TaskQueues != nil && t != nil
-//@   modifies hook.nRun, hook.ranContexts, ranErr, nCombine, lastCombine, allMergedAllowFailure, nUpdateMeta, lastMeta, nUnlock, unlockIds, nUnlockAll, hook.lastWaitHook, hook.lastWaitErr, hook.lastHookResult, hook.lastHookErr, nSetAdm, lastAdmProp, nSend, lastSendErr, objectpatch.nPatchExec, objectpatch.nExec, objectpatch.execOp, objectpatch.execErr, objectpatch.lastSpecs, objectpatch.lastDecodeErr, objectpatch.nDocs, objectpatch.docLog, objectpatch.lastDecErr, gotMeta, metaEpoch, rate.lastWaitLimiter, rate.lastLimiterErr
+//@   modifies hook.nRun, hook.ranContexts, ranErr, nCombine, lastCombine, allMergedAllowFailure, nUpdateMeta, lastMeta, nUnlock, unlockIds, nUnlockAll, hook.lastWaitHook, hook.lastWaitErr, hook.lastHookResult, hook.lastHookErr, nSetAdm, lastAdmProp, nSend, lastSendErr, objectpatch.nPatchExec, objectpatch.nExec, objectpatch.execOp, objectpatch.execErr, objectpatch.lastSpecs, objectpatch.lastDecodeErr, gotMeta, metaEpoch, rate.lastWaitLimiter, rate.lastLimiterErr
 //@   requires [ghost-wf] hook.nProcess >= 0 && !hook.fsExists[""]
 //@   modifies bindingcontext.lastConvIn, bindingcontext.lastConvVersion, bindingcontext.lastConvOut, controller.lastRefreshIn, controller.lastRefreshOut, controller.snapCount, controller.snapOf, hook.fsExists, hook.ctxFileContent, hook.nProcess, hook.lastExitErr, hook.nOutputsRead, hook.lastEnviron
 //@   modifies seenItems, filterItems, mergedTasks, mergedSeq, lastCombined, nMerged, all(queue.TaskQueue.items), all(queue.TaskQueue.measureActionFn), queue.nMut, allelems(string)
